@@ -177,6 +177,8 @@ class Hist:
         info = np.iinfo(self.info[h]["dt"])
         keys = list(model)
         dt = self.info[h]["dt"]
+        if dt == "uint64" and rng.random() < self.P.get("wide_rate", 0.0):
+            return -rng.choice([1, 2, rng.randint(1, 2 ** 62)])      # no unsigned dtype can hold it
         if dt not in ("int64", "uint64") and keys and rng.random() < self.P.get("wide_rate", 0.0):
             # a value the key dtype cannot represent, biased to be congruent to a key modulo 2**bits (a cast of
             # the query to the key dtype would wrap it onto that key)
@@ -222,23 +224,26 @@ class Hist:
         return ["arr", rng.choice(VDT[vk]) if vk != "bool" else "bool", vkind_values(rng, vk, n)]
 
     def qform(self, h, op):
-        """Container of a vector query.  Tables keyed by uint64 are only queried with uint64 arrays:
-        numpy promotes (uint64, int64) to float64, which is known finding R15, demonstrated by its
-        stored witness rather than re-generated.  Empty queries are always typed arrays (an empty
-        Python list has no integer dtype)."""
+        """Container of a vector query: a Python list, an array of the key dtype, an int64 array (numpy's
+        default for integers) or - for non-negative queries - a uint64 array, whatever the key dtype.
+        Empty queries are always typed arrays (an empty Python list has no integer dtype)."""
         rng = self.rng
         dt = self.info[h]["dt"]
-        n = len(op.get("keys", op.get("batch", [])))
-        if dt == "uint64":
-            op["q_dtype"] = "uint64"
-            return
+        qs = op.get("keys", op.get("batch", []))
+        n = len(qs)
         ki = np.iinfo(dt)
-        wide = any(not (int(ki.min) <= x <= int(ki.max)) for x in op.get("keys", []))
+        wide = any(not (int(ki.min) <= x <= int(ki.max)) for x in qs)
+        fits64 = all(-2 ** 63 <= x < 2 ** 63 for x in qs)
         r = rng.random()
-        if r < 0.3 and n > 0:
+        if r < 0.25 and n > 0 and fits64:
             op["as_list"] = True
-        elif r < 0.65 and not wide:
+        elif r < 0.55 and not wide:
             op["q_dtype"] = dt
+        elif r < 0.7 and all(x >= 0 for x in qs):
+            op["q_dtype"] = "uint64"
+        elif not fits64:
+            op["q_dtype"] = "uint64" if all(x >= 0 for x in qs) else dt
+        # else: int64 (numpy's default integer)
 
     def pick(self, pred=lambda i: True):
         hs = [h for h in self.m if pred(self.info[h])]
@@ -329,10 +334,8 @@ class Hist:
             ki = np.iinfo(self.info[h]["dt"])
             if all(int(ki.min) <= x <= int(ki.max) for x in batch) and rng.random() < 0.5:
                 op["b_dtype"] = self.info[h]["dt"]
-            elif self.info[h]["dt"] != "uint64" and batch and rng.random() < 0.4:
+            elif batch and rng.random() < 0.4:
                 op["as_list"] = True
-            elif self.info[h]["dt"] == "uint64":
-                op["b_dtype"] = "uint64"
             self.ops.append(op)
             for x in batch:
                 if x in self.m[h]:
